@@ -48,13 +48,55 @@ let parse_sexp (s : string) : Base.sexp =
   in
   item ()
 
+(* numpy's sqrt for the model: exact rational -> float -> sqrt -> exact rational *)
+let rec pos_to_float (p : BinNums.positive) : float =
+  match p with
+  | BinNums.Coq_xH -> 1.0
+  | BinNums.Coq_xO q -> 2.0 *. pos_to_float q
+  | BinNums.Coq_xI q -> 2.0 *. pos_to_float q +. 1.0
+
+let z_to_float (z : BinNums.coq_Z) : float =
+  match z with
+  | BinNums.Z0 -> 0.0
+  | BinNums.Zpos p -> pos_to_float p
+  | BinNums.Zneg p -> -. pos_to_float p
+
+let rec pos_of_int64 (n : int64) : BinNums.positive =
+  if Int64.equal n 1L then BinNums.Coq_xH
+  else
+    let h = pos_of_int64 (Int64.shift_right_logical n 1) in
+    if Int64.equal (Int64.logand n 1L) 1L then BinNums.Coq_xI h else BinNums.Coq_xO h
+
+let rec pow2 (k : int) : BinNums.positive = if k <= 0 then BinNums.Coq_xH else BinNums.Coq_xO (pow2 (k - 1))
+
+let rec shift_pos (p : BinNums.positive) (k : int) : BinNums.positive =
+  if k <= 0 then p else shift_pos (BinNums.Coq_xO p) (k - 1)
+
+let q_of_float (x : float) : QArith_base.coq_Q =
+  if x = 0.0 || Float.is_nan x || Float.is_integer x = false && Float.abs x = Float.infinity then
+    { QArith_base.coq_Qnum = BinNums.Z0; QArith_base.coq_Qden = BinNums.Coq_xH }
+  else begin
+    let (m, e) = Float.frexp (Float.abs x) in
+    let mant = Int64.of_float (Float.ldexp m 53) in
+    let e' = e - 53 in
+    let p = pos_of_int64 mant in
+    let (num, den) = if e' >= 0 then (shift_pos p e', BinNums.Coq_xH) else (p, pow2 (- e')) in
+    { QArith_base.coq_Qnum = (if x < 0.0 then BinNums.Zneg num else BinNums.Zpos num);
+      QArith_base.coq_Qden = den }
+  end
+
+let ksqrt (q : Qcanon.coq_Qc) : Qcanon.coq_Qc =
+  let qq : QArith_base.coq_Q = Obj.magic q in
+  let f = z_to_float qq.QArith_base.coq_Qnum /. pos_to_float qq.QArith_base.coq_Qden in
+  Qcanon.coq_Q2Qc (q_of_float (Float.sqrt f))
+
 let () =
   try
     while true do
       let line = input_line stdin in
       (try
          let x = parse_sexp line in
-         print_string (implode (Driver.run x))
+         print_string (implode (Driver.run ksqrt x))
        with
        | Bad m -> print_string ("(\"driver-error\" \"" ^ m ^ "\")")
        | Stack_overflow -> print_string "(\"driver-error\" \"stack-overflow\")");
